@@ -131,6 +131,8 @@ def crosshair_run(fn, timeout, path_timeout, max_iter=None):
     import collections
     import z3
     import crosshair.core_and_libs  # noqa: registers opcode patches and library models
+    from kit import chpatch
+    chpatch.apply()
     from crosshair.core import analyze_function, run_checkables
     from crosshair.options import AnalysisKind, AnalysisOptionSet
 
